@@ -1271,7 +1271,13 @@ def _handle_upload_pack_tail(
                     )
 
             # In protocol v2, break after handling first response packet
-            # (either packfile-uris or packfile)
+            # (either packfile-uris or packfile). Any other section here means
+            # the response is not positioned at the pack: fail instead of
+            # returning successfully without having read it.
+            if parts[0] not in (b"packfile", b"packfile-uris"):
+                raise GitProtocolError(
+                    f"unexpected section {parts[0]!r} in fetch response"
+                )
             break
         else:
             if parts[0] == b"ACK":
